@@ -134,3 +134,8 @@ CHECKS["C08"] = {"pkg": "ledger", "shards": 14, "level": "fault_enumeration", "t
     "technique": "fault enumeration over generated node life cycles: every bolt commit boundary (verif commit hook) and reconstructed write-prefix states inside each commit are restarted and must converge to the never-crashed twin; watchdog on the node's own verification",
     "note": LN + "; commit boundaries come from the hook in dbutil.DB.Update; intra-commit states follow bolt's documented write order (data pages ascending, sync, meta page, sync) and are rebuilt from page diffs of the before/after images",
     "text": "For each generated life cycle (database creation, version stamp, visor.New, genesis, 2-8 blocks interleaved with pool updates) all crash states are enumerated: the file after every commit and, inside every commit, prefixes of the changed data pages with torn last page and torn meta page. Every state is restarted with and without forced verification (and through ResetCorruptDB), must pass CheckDatabase within 20 s, accept the remaining blocks and end with the twin's chain, unspent set, history and views. Life cycles are sampled, crash states per life cycle are enumerated (prefix lengths sampled when a commit changes more than 4 pages)."}
+
+CHECKS["C27"] = {"pkg": "api", "shards": 12,
+    "technique": "property-based testing (rapid) of the real request multiplexer against a table-driven model of the documented access conditions, with a recording stub gateway as reach detector and a pinned route table",
+    "text": "Generated configurations (interface host, whitelist, header and token checks, API-set subsets, credentials) and requests (every route of a pinned route table and unregistered paths, 7 methods, Host / Origin / Referer variants, 9 token kinds incl. superseded, expired, re-signed and edited ones, 11 credential presentations incl. user/password boundary shifts, content types) are served in process; a request the model refuses must not reach the gateway and must get the documented refusal, a request the model admits must not be refused by access control.",
+    "note": "reach detection = stub gateway hit count plus refusal signature of the response; known finding csrf-superseded-token is probed separately and its class excluded from the main search; unconfigured-credentials and content-type refusals are tolerated either way"}
